@@ -14,18 +14,19 @@ LEVEL_TEXT = ('partial proof over a heuristic scan. PROVED: the composition of p
               'Lean 4 theorems over an effect-summary heap model whose per-function write sets are REGENERATED from the '
               'source by an effect-site scan: for every history a caller-owned cell changes only under a call documented as '
               'in-place on that argument (induction over the history + decidable check of the generated table against the '
-              'documented in-place list); seeded functions never touch the global generator; the _dft2_coords cache always holds '
+              'documented in-place list); the frame is slot- and attribute-specific (an in-place fit may write only what the plane holds through opd/tilt: '
+              'inplace_fit_never_writes_amplitude, inplace_writes_go_through_documented_attributes); plane-state confluence holds at model level (composed with C04); seeded functions never touch the global generator; the _dft2_coords cache always holds '
               'arange(n)-floor(n/2) because nothing writes it, so results are history independent. SAMPLED, not proved: that each '
               'summary (a row of the scan) is right about what NumPy/Python actually do — random histories on frozen, byte-snapshotted '
               'caller arrays and objects, op labels resolved through the receiver class MRO to the function that Python will run (not traced); the scan\'s alias rule is a heuristic.')
 LEVEL_NOTE = ('PARTIAL PROOF (category proof because Lean theorems carry the composition argument; NOT a proof of purity of the Python code): '
               'the proof shows that the effect summaries compose over unbounded histories and stay inside the documented '
               'in-place list; that each summary is faithful is sampled by the correspondence; the scan\'s alias rule is a trusted '
-              'heuristic. Plane-state confluence is sampled only.')
+              'heuristic. Plane-state confluence: theorem at model level (C04 composition), sampled on the real code.')
 TECHNIQUE = 'Lean 4 proof (induction over histories, decide +kernel on a regenerated effect table) + history-based differential correspondence'
-GEN = ['Effects', 'FourierWiring']
+GEN = ['Effects', 'Extent', 'FftScratch', 'FieldDispatch', 'FieldIdx', 'FieldMerge', 'FourierWiring', 'Helper', 'Helper20', 'Hex', 'Mesh', 'PlanePhase', 'PlaneType', 'PropagateMeta', 'TiltFit', 'Util', 'Window']     # every Gen module the model, lemmas, theorems and driver ops import (transitively)
 OPS = ['C10']
-RULE = ('cases: random histories (length 5..40) of public calls — plane/pupil construction from shared arrays, attribute updates, '
+RULE = ('one table-driven smoke case per run: every public function of the effect table is called once on fixtures chosen by parameter name (about 145 of 174 callable; the rest are listed in UNPROVEN) and the changed argument slots / global generator are compared with its table row; cases: random histories (length 5..40) of public calls — plane/pupil construction from shared arrays, attribute updates, '
         'fit_tilt (copy and in-place), copy, rescale, multiply, propagate_dft/fft (with scratch), Wavefront.insert/intensity, dft2/idft2 '
         'with repeated shapes and varying offsets/shifts and out=, adc/collect_charge/bayer/pixel/pixelate/charge_diffusion, seeded and '
         'unseeded noise models, jitter/smear, util.rescale/rebin/pad/normalize_power, power_spectrum/zernike, Spectrum arithmetic/sample/'
@@ -69,7 +70,7 @@ def _refresh_unproven():
 def generate(rng, tier):
     _refresh_unproven()
     n = {'quick': 60, 'thorough': 1500, 'search': 300}[tier]
-    out = []
+    out = [{'kind': 'smoke'}]
     for k in range(n):
         if k % 6 == 5:
             out.append({'kind': 'confluence', 'hseed': int(rng.integers(0, 2**31)), 'segments': int(rng.integers(1, 4)),
@@ -80,9 +81,9 @@ def generate(rng, tier):
                         'focus': FOCI[(k - k // 6) % len(FOCI)]})
     return out
 
-def signature(c): return f"{c['kind']} {c.get('hseed', c.get('which'))} {c.get('length', '')} {c.get('focus', c.get('segments'))}"
+def signature(c): return c['kind'] if c['kind'] == 'smoke' else f"{c['kind']} {c.get('hseed', c.get('which'))} {c.get('length', '')} {c.get('focus', c.get('segments'))}"
 def nontrivial(c): return c['kind'] != 'history' or c['length'] >= 8
-def tags(c): return [c['kind']] + ([] if c['kind'] == 'witness' else [f"focus:{c['focus']}", f"len:{c['length'] // 10 * 10}+"] if c['kind'] == 'history' else [f"segments:{c['segments']}"])
+def tags(c): return [c['kind']] + (['fits>32'] if c.get('nfits', 2) > 32 else []) + ([] if c['kind'] in ('witness', 'smoke') else [f"focus:{c['focus']}", f"len:{c['length'] // 10 * 10}+"] if c['kind'] == 'history' else [f"segments:{c['segments']}"])
 def shrink(c):
     if c['kind'] == 'history' and c['length'] > 1:
         for L in (c['length'] // 2, c['length'] - 1):
@@ -561,19 +562,129 @@ def _witness(c):
         return {'untouched': _digest(s) == d0, 'what': 'Spectrum.sample(waveunit=um) on a nm spectrum'}
     raise ValueError(c['which'])
 
+# ------------------------------------------------------------------------------------------ table-driven smoke calls
+def _fixture(name, lentil):
+    """a fresh argument for a parameter of that name (arrays are frozen read-only), or KeyError"""
+    yy, xx = np.mgrid[0:8, 0:8]
+    circ = ((yy - 4) ** 2 + (xx - 4) ** 2 <= 9).astype(float)
+    R = lentil.radiometry
+    fz = lambda a: (a.setflags(write=False), a)[1]
+    table = {
+        'img': lambda: fz(np.round(np.abs(np.sin(yy + 2.0 * xx)) * 200) / 4), 'array': lambda: fz(circ * 2.0), 'a': lambda: fz(circ * 3.0), 'x': lambda: fz(circ.copy()),
+        'f': lambda: fz((circ + 0j)), 'F': lambda: fz((circ + 1j * circ.T)), 'opd': lambda: fz(circ * 1e-7 * (xx - 4)), 'amplitude': lambda: fz(circ.copy()),
+        'mask': lambda: fz(circ.copy()), 'shape': lambda: (8, 8), 'wave': lambda: fz(np.array([500., 600., 700.])), 'qe': lambda: fz(np.array([0.5, 0.25, 0.75])),
+        'waveunit': lambda: 'nm', 'index': lambda: 4, 'j': lambda: 5, 'modes': lambda: [1, 2, 3, 4], 'coeffs': lambda: fz(np.array([0, 1e-8, 2e-8, 1e-8])),
+        'scale': lambda: 1.5, 'oversample': lambda: 2, 'seed': lambda: 3, 'pixelscale': lambda: 1e-3, 'radius': lambda: 3.0, 'factor': lambda: 2,
+        'alpha': lambda: 0.125, 'gain': lambda: 1.5, 'electrons': lambda: 5.0, 'rate': lambda: 20.5, 'sigma': lambda: 0.8, 'distance': lambda: 2.0,
+        'rms': lambda: 5e-8, 'half_power_freq': lambda: 3.0, 'exp': lambda: 3.0, 'f_number': lambda: 10.0, 'translation': lambda: 1e-4, 'temp': lambda: 5000.0,
+        'temperature': lambda: 110.0, 'cutoff_wavelength': lambda: 5e-6, 'bayer_string': lambda: 'RGGB', 'width': lambda: 4, 'height': lambda: 3, 'size': lambda: 5,
+        'ts': lambda: 10.0, 'power': lambda: 1.0, 'threshold': lambda: 0, 'vec': lambda: [500., 600.], 'z': lambda: 10.0, 'du': lambda: 5e-6, 'min_q': lambda: 2,
+        'wavelength': lambda: 650e-9, 'value': lambda: fz(circ * 0.5), 'other': lambda: R.Spectrum(np.linspace(400., 800., 6), np.linspace(1., 2., 6)),
+        'fields': lambda: [lentil.field.Field(fz(circ + 0j), offset=[0, 1]), lentil.field.Field(fz(circ + 0j), offset=[2, -1])],
+        'field': lambda: lentil.field.Field(fz(circ + 0j), offset=[1, 0]), 'out': lambda: np.zeros((8, 8), dtype=complex),
+        'wavefront': lambda: lentil.Wavefront(650e-9), 'plane': lambda: lentil.Pupil(amplitude=fz(circ.copy()), pixelscale=1e-3, focal_length=10.0),
+        'rings': lambda: 1, 'seg_radius': lambda: 6, 'seg_gap': lambda: 1, 'min_wave': lambda: 450., 'max_wave': lambda: 750., 'unit': lambda: 'um',
+        'waveunit_': lambda: 'nm', 'name': lambda: 'nm', 'band': lambda: 'V', 'iterable': lambda: [R.Material(transmission=0.9), R.Material(transmission=0.8)],
+        'data': lambda: fz(circ + 0j), 'b': lambda: lentil.field.Field(fz(circ + 0j), offset=[0, 0]), 'direction': lambda: 1, 'hex': lambda: (1, -1, 0),
+        'qe_red': lambda: 0.5, 'qe_green': lambda: fz(np.array([0.5, 0.25, 0.75])), 'qe_blue': lambda: 0.25, 'bayer_pattern': lambda: 'RGGB',
+        'shift': lambda: (0, 0), 'y': lambda: 1e-6, 'dx': lambda: 1e-3, 'ptype': lambda: 'pupil', 'flux': lambda: fz(np.array([1., 2., 3.])),
+        'fluxunit': lambda: 'photlam', 'valueunit': lambda: 'photlam', 'mag': lambda: 5.0, 'q': lambda: 1, 'r': lambda: -1, 's': lambda: 0,
+        'ends': lambda: 2, 'start': lambda: 450., 'end': lambda: 750., 'emission': lambda: 0.1, 'transmission': lambda: 0.9,
+        'extent': lambda: (-2, 2, -3, 3), 'slice': lambda: (slice(1, 5), slice(2, 6)), 'rho': lambda: None, 'theta': lambda: None, 'n': lambda: 2, 'm': lambda: 0,
+    }
+    return table[name]()
+
+def _instance(cls_name, lentil):
+    yy, xx = np.mgrid[0:8, 0:8]
+    circ = ((yy - 4) ** 2 + (xx - 4) ** 2 <= 9).astype(float)
+    R = lentil.radiometry
+    if cls_name in ('Plane', 'Pupil'): return lentil.Pupil(amplitude=circ.copy(), opd=circ * 1e-7 * (xx - 4), pixelscale=1e-3, focal_length=10.0)
+    if cls_name == 'Image': return lentil.Image(amplitude=circ.copy(), pixelscale=5e-6)
+    if cls_name in ('Tilt', 'TiltInterface'): return lentil.Tilt(x=1e-6, y=2e-6)
+    if cls_name == 'Wavefront': return lentil.Wavefront(650e-9) * lentil.Pupil(amplitude=circ.copy(), pixelscale=1e-3, focal_length=10.0)
+    if cls_name == 'Field': return lentil.field.Field(circ + 0j, offset=[1, -1])
+    if cls_name == 'Spectrum': return R.Spectrum(np.linspace(400., 800., 9), np.linspace(1., 2., 9))
+    if cls_name == 'Blackbody': return R.Blackbody(np.linspace(400., 800., 9), 5000.0)
+    if cls_name == 'Material': return R.Material(transmission=0.9)
+    if cls_name == 'PType': return lentil.pupil
+    raise KeyError(cls_name)
+
+def _smoke(c):
+    """call every public function of the generated effect table once on fixtures chosen by parameter name; record which parameter slots
+    changed and whether the global generator moved. A call the fixtures do not fit (it raises) still must not have changed anything."""
+    import re, os, inspect, importlib
+    lentil = vlib.import_lentil()
+    rows = re.findall(r'fn := "([^"]+)", pub := true', open(os.path.join(vlib.LEAN, 'LentilVerif', 'Gen', 'Effects.lean')).read())
+    out = []
+    for fn in rows:
+        parts = fn.split('.')
+        rec = {'fn': fn}
+        try:
+            mod = importlib.import_module('lentil.' + parts[0])
+            if len(parts) == 2: target, inst = getattr(mod, parts[1]), None
+            else:
+                klass = getattr(mod, parts[1])
+                attr = inspect.getattr_static(klass, parts[2])
+                if parts[2] == '__init__': target, inst = klass, None
+                elif isinstance(attr, property): target, inst = attr, _instance(parts[1], lentil)
+                elif isinstance(attr, (staticmethod, classmethod)): target, inst = getattr(klass, parts[2]), None
+                else: inst = _instance(parts[1], lentil); target = getattr(inst, parts[2])
+            args = {}
+            if isinstance(target, property): sig = []
+            else:
+                sig = [p for p in inspect.signature(target).parameters.values() if p.name not in ('self', 'cls')]
+            for p_ in sig:
+                if p_.kind in (p_.VAR_POSITIONAL, p_.VAR_KEYWORD): continue
+                if p_.default is not inspect._empty and p_.name not in ('out', 'mask', 'seed', 'opd', 'amplitude'): continue
+                args[p_.name] = _fixture(p_.name, lentil)
+        except KeyError as e:
+            rec['status'] = f'no fixture: {e}'; out.append(rec); continue
+        except Exception as e:
+            rec['status'] = f'setup: {type(e).__name__}'; out.append(rec); continue
+        tracked = dict(args)
+        if inst is not None: tracked['self'] = inst
+        before = {k: _digest(v) for k, v in tracked.items()}
+        g0 = np.random.get_state()[1].tobytes()
+        try:
+            with warnings.catch_warnings():
+                warnings.simplefilter('ignore')
+                if isinstance(target, property): target.fget(inst)
+                else: target(**args)
+            rec['status'] = 'called'
+        except Exception as e:
+            rec['status'] = f'raised {type(e).__name__}: {e}'[:90]
+        rec['changed'] = sorted(k for k, v in tracked.items() if _digest(v) != before[k])
+        rec['rng'] = np.random.get_state()[1].tobytes() != g0
+        _EXECUTED.add(fn) if rec['status'] == 'called' else None
+        out.append(rec)
+    _refresh_unproven()
+    return {'rows': out}
+
 def impl(c):
+    if c['kind'] == 'smoke': return _smoke(c)
     if c['kind'] == 'witness': return _witness(c)
     if c['kind'] == 'confluence': return _confluence(c)
     return _run_history(c)
 
 # ------------------------------------------------------------------------------------------ model
 def requests(c, io):
+    if c['kind'] == 'smoke': return [{'op': 'heap.rows', 'fns': [r['fn'] for r in io['rows']]}]
     if c['kind'] != 'history': return []
     ops = [{'fn': s['fn'], 'bind': s['bind'], 'res': s['res'], **({'inplace': s['inplace_flag']} if s.get('inplace_flag') is not None else {})}
            for s in io['steps'] if 'fn' in s]
     return [{'op': 'heap.run', 'ops': ops}]
 
 def compare(c, io, mo):
+    if c['kind'] == 'smoke':
+        m = mo[0]
+        if not m.get('ok'): return f"model refused: {m.get('err')}"
+        for r, a in zip(io['rows'], m['rows']):
+            if 'changed' not in r: continue
+            if not a['known']: return f"{r['fn']} is not in the effect table"
+            extra = [k for k in r['changed'] if k not in a['slots']]
+            if extra: return f"{r['fn']} changed its argument(s) {extra}; the effect table allows only {a['slots']} ({r['status']})"
+            if r['rng'] and not a['rng']: return f"{r['fn']} moved the global generator; the effect table says it does not use it"
+        return None
     if c['kind'] != 'history': return None
     m = mo[0]
     if not m.get('ok'): return f"model refused: {m.get('err')}"
@@ -587,7 +698,19 @@ def compare(c, io, mo):
     return None
 
 # ------------------------------------------------------------------------------------------ oracle
+SMOKE_INPLACE = {('field.insert', 'out'), ('wavefront.Wavefront.insert', 'out'), ('fourier.dft2', 'out'), ('fourier.idft2', 'out'),
+                 ('plane.Plane.fit_tilt', 'self'), ('propagate.propagate_fft', 'scratch')}
+SMOKE_EDIT = ('radiometry.Spectrum.', 'radiometry.Material.')       # the documented editing methods / setters change `self`
+
 def oracle(c, io):
+    if c['kind'] == 'smoke':
+        for r in io['rows']:
+            for k in r.get('changed', []):
+                if (r['fn'], k) in SMOKE_INPLACE or (k == 'self' and r['fn'].startswith(SMOKE_EDIT) and r['fn'].split('.')[-1] in
+                        ('append', 'crop', 'pad', 'resample', 'to', 'trim')): continue
+                return f"{r['fn']} modified its argument {k!r} although it is not documented as in-place ({r['status']})"
+            if r.get('rng') and r['fn'] not in ('detector.cosmic_rays', 'convolvable.smear'): return f"{r['fn']} read or advanced the global random state"
+        return None
     if c['kind'] == 'witness':
         return None if io['untouched'] else f"{io['what']} modified the caller's object"
     if c['kind'] == 'confluence':
